@@ -59,6 +59,10 @@ pub struct IdStyle(pub u64);
 
 const SUFFIXES: &[&str] = &["", " \"q\\é", "#ünï/{x}", "\t'€😀", ":a,b|c"];
 
+/// the text-validation vocabulary has fixed concrete names
+pub const TV_SET: &str = "https://w3id.org/stam/extensions/stam-textvalidation/";
+const RESERVED: &[&str] = &["checksum", "text", "delimiter"];
+
 impl IdStyle {
     fn suffix(&self) -> &'static str {
         SUFFIXES[(self.0 as usize) % SUFFIXES.len()]
@@ -66,6 +70,10 @@ impl IdStyle {
     pub fn conc(&self, abs: &str) -> String {
         if abs.is_empty() {
             String::new()
+        } else if abs == "TV" {
+            TV_SET.to_string()
+        } else if RESERVED.contains(&abs) {
+            abs.to_string()
         } else {
             format!("{}{}", abs, self.suffix())
         }
@@ -74,6 +82,10 @@ impl IdStyle {
         let suf = self.suffix();
         if conc.is_empty() {
             String::new()
+        } else if conc == TV_SET {
+            "TV".to_string()
+        } else if RESERVED.contains(&conc) {
+            conc.to_string()
         } else if suf.is_empty() {
             conc.to_string()
         } else if let Some(stripped) = conc.strip_suffix(suf) {
